@@ -400,6 +400,27 @@ func checkValue(name string, p packet.Generic) (fails []explore.ClauseFail) {
 	if q.Len() != L {
 		fail("decode-roundtrip", "the decoded packet reports Len() = %d, the original %d", q.Len(), L)
 	}
+	// the same through the stream encoder / decoder (header detection, pooled buffer)
+	var wire bytes.Buffer
+	if err := packet.NewEncoder(&wire).Write(p, false); err != nil {
+		fail("stream-roundtrip", "Encoder.Write failed: %v", err)
+		return
+	}
+	if !bytes.Equal(wire.Bytes(), want) {
+		fail("stream-roundtrip", "the stream encoder wrote %d bytes that differ from the specified layout (%d bytes)", wire.Len(), len(want))
+		return
+	}
+	sq, err := packet.NewDecoder(&wire).Read()
+	if err != nil {
+		fail("stream-roundtrip", "Decoder.Read of the packet's own encoding failed: %v", err)
+		return
+	}
+	if a, b := FromLib(p), FromLib(sq); !ref.Equal(a, b) {
+		fail("stream-roundtrip", "the packet read from the stream differs from the original:\n  original %s\n  decoded  %s", a, b)
+	}
+	if wire.Len() != 0 {
+		fail("stream-roundtrip", "Decoder.Read left %d bytes of the packet's encoding unread", wire.Len())
+	}
 	return
 }
 
@@ -441,7 +462,7 @@ func runC01(r *report.Report) {
 	}, r.Deadline())
 	r.Extra["values_per_type"] = perType
 	r.AddSweep(report.Part{Name: "catalogue", Mode: "sweep", Bound: fmt.Sprintf("complete product catalogue, %d values", evals), Evaluations: evals, Nontrivial: evals,
-		Rule: "every value: Len() vs bytes written vs reference layout (exact buffer, larger buffer, short buffer), decode of the encoding consumes all bytes and yields an equal packet; each value is distinct by construction", Exhaustive: complete, Wall: r.Seconds() - t0, Violations: nv}, viol)
+		Rule: "every value: Len() vs bytes written vs reference layout (exact buffer, larger buffer, short buffer), decode of the encoding consumes all bytes and yields an equal packet, directly and through packet.Encoder / packet.Decoder; each value is distinct by construction", Exhaustive: complete, Wall: r.Seconds() - t0, Violations: nv}, viol)
 	r.Sample("PUBLISH dup=true retain=false qos=1 topic=127 id=256 payload=16254 (remaining length 16385)")
 	r.Sample("CONNECT v3 clean=false cid=128 ka=65535 will=13 userpass=4")
 	// stream encoder / decoder with a poisoned buffer pool: every ordered pair (big, small) of a 40-value subset
